@@ -565,7 +565,7 @@ func errorCases(r *h.Rand, tier string, emit func([]string)) {
 
 func gen(r *h.Rand, tier string, emit func([]string)) {
 	errorCases(r, tier, emit)
-	nLookup, nDelete, nCrash, nTs := 150, 260, 40, 60
+	nLookup, nDelete, nCrash, nTs := 120, 200, 36, 50
 	if tier == "thorough" {
 		nLookup, nDelete, nCrash, nTs = 2500, 5000, 400, 600
 	}
